@@ -128,6 +128,16 @@ def read_tree(lines, problems):
             else:
                 kind = "?"
                 problems.append("line %r: cannot classify (last prefix token %r)" % (body, last))
+        if kind != "E" and toks:
+            # prefix grammar of a context block: the trunk marker for a child entry ("├─") is always directly followed by
+            # the child indicator ("─ "), and a child indicator follows either that trunk marker or plain indentation
+            for ti, tk in enumerate(toks):
+                if tk == CHILD_START and (ti + 1 >= len(toks) or toks[ti + 1] != CHILD_IND):
+                    problems.append("line %r: trunk marker for a child entry not followed by the child indicator (prefix %r)" % (body, toks))
+                    break
+                if tk == CHILD_IND and ti > 0 and toks[ti - 1] not in (CHILD_START, BLANK2):
+                    problems.append("line %r: child indicator after %r (prefix %r)" % (body, toks[ti - 1], toks))
+                    break
         while stack and stack[-1][0] >= depth:
             stack.pop()
         node = [kind, content, []]
